@@ -10,6 +10,7 @@ def matcher(R, target, **kw):
 
 
 def register(R):
+    register_scans(R)
     # ---- matchers --------------------------------------------------------
     # verdict of an abstract matcher on a value: an uninterpreted FUNCTION (determinism by construction)
     R.function("holds", ["val", "val"], "bool")
@@ -26,3 +27,20 @@ def register(R):
     R.shape("PureFn",
             __call__=dict(returns="any", pure=True, event=True, exsures=["True"],
                           ensures=["result == fn_result(self, _args)"]))
+
+
+def mismatch_truthiness_scan(repo):
+    """Side condition of every `if mismatch:` in the matchers: no mismatch class defines __bool__ / __len__,
+    so a mismatch object is always truthy."""
+    from pyvc.loader import ClassInfo
+    base = repo.find_class("testtools.matchers._impl:Mismatch")
+    out = []
+    for c in repo.class_by_qual.values():
+        if base in c.mro:
+            bad = [m for m in ("__bool__", "__len__") if m in c.methods]
+            out.append((c.qual, not bad, "%s defines %s: instances can be falsy" % (c.qual, bad) if bad else "no __bool__/__len__"))
+    return out
+
+
+def register_scans(R):
+    R.scan("mismatch-objects-are-truthy", ["C06", "C07"], mismatch_truthiness_scan)
